@@ -28,6 +28,7 @@ type cliCase struct {
 	Input0  string   // the positional argument ("" = none: use GOFILE)
 	GoFile  string   // GOFILE value ("" = unset)
 	OutFlag string   // value of -out ("" none)
+	Link    string   // when set, Dir/File is a symbolic link to this path (relative to Dir): the setup file lives elsewhere under another name
 }
 
 type cliObs struct {
@@ -76,20 +77,22 @@ func checkC18(r *report.Report, tier string, seed int64) error {
 		dir, file, cwd string
 		abs, dotslash  bool
 		bareOut        bool // -out is a bare file name: relative to the working directory, not to the input
+		link           string
 	}
 	layouts := []layout{
-		{"pk", "setup.go", "pk", false, false, false},
-		{"pk", "setup.go", "", false, false, false},
-		{"pk", "setup.go", "pk", false, true, false},
-		{"pk", "setup.go", "", true, false, false},
-		{"a.b/pk", "setup.go", "", false, false, false},
-		{"a.b/pk", "conv.setup.go", "a.b", false, false, false},
-		{"pk", "setup.go", "", false, false, true},
-		{"a.b/pk", "setup.go", "a.b", false, false, true},
-		{"pk", "setup.x", "pk", false, false, false}, // unusual extension (not .go: the loader rejects it -> failing run)
+		{"pk", "setup.go", "pk", false, false, false, ""},
+		{"pk", "setup.go", "", false, false, false, ""},
+		{"pk", "setup.go", "pk", false, true, false, ""},
+		{"pk", "setup.go", "", true, false, false, ""},
+		{"a.b/pk", "setup.go", "", false, false, false, ""},
+		{"a.b/pk", "conv.setup.go", "a.b", false, false, false, ""},
+		{"pk", "setup.go", "", false, false, true, ""},
+		{"a.b/pk", "setup.go", "a.b", false, false, true, ""},
+		{"pk", "setup.go", "pk", false, false, false, "../tpl/person_setup.go"}, // the setup file is a symbolic link to a file elsewhere
+		{"pk", "setup.x", "pk", false, false, false, ""},                        // unusual extension (not .go: the loader rejects it -> failing run)
 	}
 	if tier == "quick" {
-		layouts = layouts[:8]
+		layouts = layouts[:9]
 	}
 	var cs []cliCase
 	for _, in := range inputs {
@@ -100,7 +103,7 @@ func checkC18(r *report.Report, tier string, seed int64) error {
 					if gofileMode != 0 && (mask%4 != 0 && tier == "quick") {
 						continue
 					}
-					c := cliCase{Input: in, Dir: l.dir, File: l.file, Cwd: l.cwd, Abs: l.abs}
+					c := cliCase{Input: in, Dir: l.dir, File: l.file, Cwd: l.cwd, Abs: l.abs, Link: l.link}
 					rel := l.dir + "/" + l.file
 					if l.cwd != "" {
 						rel = strings.TrimPrefix(rel, l.cwd+"/")
@@ -176,6 +179,9 @@ func checkC18(r *report.Report, tier string, seed int64) error {
 			defer func() { <-sem }()
 			c := cs[i]
 			files := tool.Files{c.Dir + "/" + c.File: cases.Fixed[c.Input]}
+			if c.Link != "" {
+				files = tool.Files{filepath.ToSlash(filepath.Join(c.Dir, c.Link)): cases.Fixed[c.Input], c.Dir + "/doc.go": "package pk\n"}
+			}
 			if i%3 == 1 && c.OutFlag == "" && strings.HasSuffix(c.File, ".go") {
 				// a longer, older output already lies at the default output path
 				ext := filepath.Ext(c.File)
@@ -188,6 +194,12 @@ func checkC18(r *report.Report, tier string, seed int64) error {
 			}
 			defer os.RemoveAll(dir)
 			roots[i] = dir
+			if c.Link != "" {
+				if err := os.Symlink(c.Link, filepath.Join(dir, filepath.FromSlash(c.Dir), c.File)); err != nil {
+					mu.Lock(); firstErr = err; mu.Unlock()
+					return
+				}
+			}
 			before, _ := tool.Snapshot(dir)
 			args := append([]string{}, c.Args...)
 			for j := range args {
